@@ -25,6 +25,16 @@ pub fn gen_op(
     ctx: &Context,
     constr: &mut ConstrBuilder,
 ) -> Constrained {
+    // the operands of an operator are expressions, also where the construct itself stands as a statement
+    gen_op_of(ast, &env.is_expr(true), ctx, constr).map(|out| out.is_expr(env.is_expr))
+}
+
+fn gen_op_of(
+    ast: &AST,
+    env: &Environment,
+    ctx: &Context,
+    constr: &mut ConstrBuilder,
+) -> Constrained {
     match &ast.node {
         Node::In { left, right } => gen_magic(CONTAINS, ast, right, left, env, ctx, constr),
         Node::Range { .. } => {
